@@ -30,9 +30,6 @@ pub fn run(a: &Args) {
         if let Some(w) = pool.as_mut() {
             writeln!(w, "{}", json!({"o": a.get("origin").unwrap_or("rendered"), "t": text})).unwrap();
         }
-        if v["model"] == json!(false) {
-            model_disagrees += 1;
-        }
         let reject = v["reject"] == json!(true);
         let exp: Vec<Ev> = v["evs"].as_array().map(|x| x.iter().map(|e| {
             let mut e = e.clone();
@@ -61,6 +58,11 @@ pub fn run(a: &Args) {
                 }
                 w
             };
+            // drift = the implementation-shaped model and the real code disagree about this text
+            // (model agrees with the reference expectation, the code does not, or vice versa)
+            if be == Backend::Str && v["model"].is_boolean() && (v["model"] == json!(true)) != why.is_empty() {
+                model_disagrees += 1;
+            }
             if !why.is_empty() {
                 bad += 1;
                 let b = json!({"t": text, "be": be.name(), "why": why, "tape": v["tape"], "info": v["info"], "model_agrees_with_renderer": v["model"],
@@ -183,4 +185,25 @@ pub fn suite(a: &Args) {
         }
     }
     println!("{}", json!({"cases": cases, "runs": runs, "bad": bad, "bad_samples": bads}));
+}
+
+/// The error cases of the yaml-test-suite must end in an error (C06).
+pub fn suite_errors(a: &Args) {
+    let suite = gen::load_suite(a.req("suite"));
+    let mut out = a.get("out").map(out_file);
+    let (mut cases, mut runs, mut bad) = (0usize, 0usize, 0usize);
+    for c in suite.iter().filter(|c| c.fail) {
+        cases += 1;
+        for be in 0..2 {
+            let r = if be == 0 { run_str(&c.yaml) } else { run_buf(&c.yaml) };
+            runs += 1;
+            if r.err.is_none() && r.panic.is_none() {
+                bad += 1;
+                if let Some(w) = out.as_mut() {
+                    writeln!(w, "{}", json!({"id": c.id, "be": if be == 0 { "str" } else { "buf" }, "t": c.yaml})).unwrap();
+                }
+            }
+        }
+    }
+    println!("{}", json!({"cases": cases, "runs": runs, "bad": bad}));
 }
